@@ -97,6 +97,19 @@ def degenerate_modules(tier):
     add("choice value with unknown alternative", "C ::= CHOICE { a NULL } v C ::= zz : NULL")
     add("sequence value with unknown component", f"S ::= SEQUENCE {{ a INTEGER }} v S ::= {{ zz {P1} }}")
     add("symbolic tag number", f"A ::= [{P1}] INTEGER", lambda v: [v >= 0, v < 2**63])
+    # constraints that say nothing about what they are applied to
+    add("SIZE of a pattern", 'A ::= OCTET STRING (SIZE (PATTERN "x")) B ::= SEQUENCE { a IA5String (SIZE (PATTERN "[a-z]+")) OPTIONAL }')
+    add("SIZE of an inner type constraint", "A ::= SEQUENCE (SIZE (WITH COMPONENT (1..2))) OF INTEGER B ::= IA5String (SIZE (WITH COMPONENTS { a }))")
+    add("SIZE of a user-defined constraint", 'A ::= OCTET STRING (SIZE (CONSTRAINED BY {})) B ::= OCTET STRING (SIZE (SETTINGS "Basic=Date"))')
+    add("SIZE of a contents constraint", "A ::= OCTET STRING (SIZE (CONTAINING INTEGER))")
+    add("serial size constraints, the second meaningless", f'A ::= SEQUENCE OF OCTET STRING (SIZE (1..{P1})) (SIZE (PATTERN "x"))', lambda v: [v >= 1])
+    add("union of empty FROM sets", 'A ::= IA5String (FROM("") | FROM("z".."a"))')
+    add("FROM with an inverted range", 'A ::= IA5String (FROM ("z".."a")) B ::= IA5String (FROM ("z".."a") ^ SIZE (1..4))')
+    add("cyclic aliases with a value reference", "A ::= B B ::= A w INTEGER ::= 5 v A ::= w")
+    add("PATTERN and value range mixed", f'A ::= IA5String (PATTERN "x" | SIZE ({P1}))', lambda v: [v >= 0])
+    add("contents constraint on a non-string", "A ::= INTEGER (CONTAINING BOOLEAN)")
+    add("odd hstring for OCTET STRING", "v OCTET STRING ::= 'ABC'H")
+    add("choice value with a struct payload", "C ::= CHOICE { p SEQUENCE { n INTEGER } } v C ::= p:{ n 3 }")
     return out
 
 
